@@ -479,12 +479,19 @@ def check_C12(ctx, tier, seed):
     vd = Verdict(ctx, "C12", tier, seed, "exploration")
     b = build(ctx, "default")
     n = 200_000 if tier == "quick" else 6_000_000
-    sim_batch(ctx, vd, "default", b, "c12", n)
     scratch = os.path.join(ctx.build_root, "default", "files")
     os.makedirs(scratch, exist_ok=True)
+    # one REAL file beyond the generator's limit in every run (sparse: costs no disk), overlapped with the batch
+    side = ThreadPoolExecutor(max_workers=2)
+    big_jobs = [side.submit(lambda: run_sim(ctx, b, ["hashfile-big", "--dir", scratch, "--variant", seed % 5, "--total", 4224281217 + seed % 3])[1])]
+    if tier != "quick":
+        big_jobs.append(side.submit(lambda: run_sim(ctx, b, ["hashfile-big", "--dir", scratch, "--variant", (seed + 2) % 5, "--total", 4224281216])[1]))
+    sim_batch(ctx, vd, "default", b, "c12", n)
     for i in range(1 if tier == "quick" else 16):
         code, rep, err = run_sim(ctx, b, ["hashfile", "--dir", scratch, "--seed", seed + i])
         vd.add("default", rep)
+    for j in big_jobs:
+        vd.add("default", j.result())
     if tier != "quick":
         strace_eintr(ctx, vd, b, scratch)
         # streams beyond the generator's limits through the stream helper itself (generated, no memory)
